@@ -264,6 +264,8 @@ pub struct Recorder<'a> {
     pub plan: Plan,
     pub seq_used: Vec<usize>,
     pub record_raw: bool,
+    /// procfs-relative lookups count as relevant syscalls (racing-mount schedules)
+    pub proc_relevant: bool,
 }
 
 impl Worker {
@@ -352,7 +354,7 @@ impl Worker {
                     "faccessat" => ev["mode"] = json!(a[2] as i32),
                     _ => {}
                 }
-                relevant = info.class == "tree" || (name == "readlinkat" && info.class == "proc" && path.is_empty());
+                relevant = info.class == "tree" || (name == "readlinkat" && info.class == "proc" && path.is_empty()) || (rec.proc_relevant && info.class == "proc");
                 // an absolute path ignores the dirfd: relevant if it points into the scratch area
                 if path.starts_with('/') && path.starts_with(&*sc.dir.to_string_lossy()) {
                     relevant = true;
@@ -371,7 +373,7 @@ impl Worker {
                     ev["mode"] = json!(m);
                     ev["resolve"] = json!(r);
                 }
-                relevant = info.class == "tree";
+                relevant = info.class == "tree" || (rec.proc_relevant && info.class == "proc");
             }
             "renameat" | "renameat2" | "linkat" => {
                 let i1 = dirfd_ev(&mut ev, "dfd", a[0] as i32 as i64);
@@ -717,10 +719,84 @@ pub fn do_attack(scratch: &mut Scratch, a: &Value) -> Value {
                 -(errno() as i64)
             }
         }
+        "mount" => match do_mount(&scratch.dir, &s("target"), &s("kind"), &s("src")) {
+            Ok(()) => 0,
+            Err(e) => -(e as i64),
+        },
+        "umount" => do_umount(&s("target")) as i64,
         _ => -(libc::ENOSYS as i64),
     };
     ev["ret"] = json!(ret);
     ev
+}
+
+
+// ---------------------------------------------------------------------------------------------
+// over-mounts on the host /proc of this shard's private mount namespace
+
+fn opath(path: &str) -> i32 {
+    let c = cstr(path);
+    unsafe { libc::open(c.as_ptr(), libc::O_PATH | libc::O_NOFOLLOW | libc::O_CLOEXEC) }
+}
+
+/// place `kind` on top of `target`; returns Ok(()) or errno
+pub fn do_mount(base: &Path, target: &str, kind: &str, src: &str) -> Result<(), i32> {
+    let me = std::process::id();
+    let t = cstr(target);
+    let rc = match kind {
+        "tmpfs" => unsafe {
+            let fs = cstr("tmpfs");
+            libc::mount(fs.as_ptr(), t.as_ptr(), fs.as_ptr(), 0, std::ptr::null())
+        },
+        "bind-file" | "bind-procfile" | "bind-procdir" => {
+            let srcp = if kind == "bind-file" {
+                let f = base.join("overmount-src-file");
+                let _ = std::fs::write(&f, b"FOREIGN FILE CONTENT\n");
+                f.to_string_lossy().to_string()
+            } else {
+                src.to_string()
+            };
+            let sc = cstr(&srcp);
+            unsafe { libc::mount(sc.as_ptr(), t.as_ptr(), std::ptr::null(), libc::MS_BIND, std::ptr::null()) }
+        }
+        "bind-symlink" => {
+            // a symlink mounted on a symlink / magic-link: both ends via O_PATH|O_NOFOLLOW descriptors
+            let l = base.join(format!("overmount-src-link-{}", src.replace('/', "_")));
+            let _ = std::fs::remove_file(&l);
+            let _ = std::os::unix::fs::symlink(src, &l);
+            let a = opath(&l.to_string_lossy());
+            let b = opath(target);
+            if a < 0 || b < 0 {
+                -1
+            } else {
+                let ap = cstr(format!("/proc/{}/fd/{}", me, a));
+                let bp = cstr(format!("/proc/{}/fd/{}", me, b));
+                let r = unsafe { libc::mount(ap.as_ptr(), bp.as_ptr(), std::ptr::null(), libc::MS_BIND, std::ptr::null()) };
+                let e = errno();
+                unsafe {
+                    libc::close(a);
+                    libc::close(b);
+                }
+                if r != 0 {
+                    return Err(e);
+                }
+                0
+            }
+        }
+        _ => -1,
+    };
+    if rc == 0 { Ok(()) } else { Err(errno()) }
+}
+
+pub fn do_umount(target: &str) -> i32 {
+    let t = cstr(target);
+    // UMOUNT_NOFOLLOW = 8
+    let r = unsafe { libc::umount2(t.as_ptr(), libc::MNT_DETACH | 8) };
+    if r == 0 { 0 } else { -errno() }
+}
+
+fn subst(s: &str, pid: i32) -> String {
+    s.replace("{pid}", &pid.to_string())
 }
 
 // ---------------------------------------------------------------------------------------------
@@ -845,6 +921,60 @@ impl Shard {
             keys.push(key);
         }
 
+        // over-mounts requested by the case (on this shard's private view of the host /proc)
+        let wpid = self.workers.get(&keys[0]).map(|w| w.pid).unwrap_or(0);
+        let mut mounted: Vec<String> = Vec::new();
+        let mut mount_log: Vec<Value> = Vec::new();
+        if let Some(opts) = case.get("procmount").and_then(|v| v.as_str()) {
+            // a fresh procfs instance with these options becomes this namespace's /proc for the case
+            let fs = cstr("proc");
+            let t = cstr("/proc");
+            let o = cstr(opts);
+            let rc = unsafe { libc::mount(fs.as_ptr(), t.as_ptr(), fs.as_ptr(), 0, if opts.is_empty() { std::ptr::null() } else { o.as_ptr() as *const libc::c_void }) };
+            if rc == 0 {
+                mounted.push("/proc".to_string());
+                mount_log.push(json!({"target": "/proc", "kind": format!("proc:{}", opts), "ok": true}));
+            } else {
+                mount_log.push(json!({"target": "/proc", "kind": format!("proc:{}", opts), "ok": false, "errno": errno()}));
+            }
+        }
+        if let Some(arr) = case.get("mounts").and_then(|v| v.as_array()) {
+            for m in arr {
+                let target = subst(m.get("target").and_then(|v| v.as_str()).unwrap_or(""), wpid);
+                let src = subst(m.get("src").and_then(|v| v.as_str()).unwrap_or(""), wpid);
+                let kind = m.get("kind").and_then(|v| v.as_str()).unwrap_or("");
+                match do_mount(&scratch.dir, &target, kind, &src) {
+                    Ok(()) => {
+                        mounted.push(target.clone());
+                        // identity of what is now visible at the target (the over-mount's source object)
+                        let (sd, si) = crate::tree::lstat(Path::new(&target)).map(|st| (st.st_dev, st.st_ino)).unwrap_or((0, 0));
+                        mount_log.push(json!({"target": target, "kind": kind, "ok": true, "src_dev": sd, "src_ino": si}));
+                    }
+                    Err(e) => mount_log.push(json!({"target": target, "kind": kind, "ok": false, "errno": e})),
+                }
+            }
+        }
+        if let Some(o) = req.as_object_mut() {
+            o.insert("wpid".into(), json!(wpid));
+        }
+        if let Some(arr) = req.get_mut("calls").and_then(|v| v.as_array_mut()) {
+            for c in arr.iter_mut() {
+                if let Some(p) = c.get("path").and_then(|v| v.as_str()).map(|x| subst(x, wpid)) {
+                    c["path"] = json!(p);
+                }
+            }
+        }
+        // scheduled attacker actions may refer to the worker's pid as well
+        for (_, acts) in plan.sched.iter_mut() {
+            for a in acts.iter_mut() {
+                for k in ["target", "src"] {
+                    if let Some(v) = a.get(k).and_then(|v| v.as_str()).map(|x| subst(x, wpid)) {
+                        a[k] = json!(v);
+                    }
+                }
+            }
+        }
+
         if !traced {
             let key = &keys[0];
             let w = self.workers.get_mut(key).unwrap();
@@ -859,7 +989,7 @@ impl Shard {
                 }
             }
         } else {
-            let mut rec = Recorder { scratch: &mut scratch, events: Vec::new(), plan, seq_used: vec![0; nseq], record_raw: case.get("raw").and_then(|v| v.as_bool()).unwrap_or(true) };
+            let mut rec = Recorder { scratch: &mut scratch, events: Vec::new(), plan, seq_used: vec![0; nseq], record_raw: case.get("raw").and_then(|v| v.as_bool()).unwrap_or(true), proc_relevant: case.get("proc_relevant").and_then(|v| v.as_bool()).unwrap_or(false) };
             // send requests
             for (p, key) in keys.iter().enumerate() {
                 let w = self.workers.get_mut(key).unwrap();
@@ -935,6 +1065,17 @@ impl Shard {
                 }
             }
         }
+        // undo the over-mounts (racing mounts of the attacker included), newest first
+        for e in events.iter() {
+            if e.get("ev").and_then(|v| v.as_str()) == Some("att") && e.get("act").and_then(|v| v.as_str()) == Some("mount") && e.get("ret").and_then(|v| v.as_i64()) == Some(0) {
+                if let Some(t) = e.get("target").and_then(|v| v.as_str()) {
+                    mounted.push(t.to_string());
+                }
+            }
+        }
+        for t in mounted.iter().rev() {
+            do_umount(t);
+        }
         let fin = scratch.snapshot();
         for o in outcome.iter_mut() {
             map_ids(o, &scratch);
@@ -948,7 +1089,7 @@ impl Shard {
         }
         let mut out = json!({
             "id": id, "status": status, "init": init, "final": fin, "events": events, "out": outcome,
-            "ms": t0.elapsed().as_millis() as u64,
+            "ms": t0.elapsed().as_millis() as u64, "mounts": mount_log, "wpid": wpid,
         });
         if let Some(m) = case.get("meta") {
             out["meta"] = m.clone();
